@@ -14,7 +14,7 @@ LEVEL_TEXT = ("Static structural proof of necessary conditions: (R2.1) the set o
               "exception that is caught, and PARENTHESES_MISMATCH is registered and reachable from string validation. "
               "Implicit exceptions (index/attribute/type errors from values), the tokenizer's span arithmetic, nesting = "
               "parenthesis nesting and print/re-parse equality are NOT decided.")
-LEVEL_EXTRA = 'Added after the seeded evaluation: (R2.3) every printer of a group visits every child, unfiltered; (R2.4) nothing returns before the parenthesis-count check.'
+LEVEL_EXTRA = 'Added after the seeded evaluation: (R2.3) every printer of a group visits every child, unfiltered; (R2.4) nothing returns before the parenthesis-count check. (R2.5) equality of tree objects never tests the other operand for truthiness.'
 
 
 def exc_name(node):
@@ -204,6 +204,40 @@ def run(ctx):
     string_checks_always_run(ctx, "R2.4")
     ctx.rule("R2.3", "the printers (str / short / long / original form) visit every child of a group, unfiltered")
     print_all_children(ctx, "R2.3")
+    ctx.rule("R2.5", "equality of tree objects never tests the other operand for truthiness (an empty group is falsy but is a tree)")
+    n_eq = 0
+    for c_ in prog.classes.values():
+        if not c_.module.name.startswith("hed.models"):
+            continue
+        if not any(any(m.name in ("__bool__", "__len__") for m in k.all_methods) for k in c_.mro()):
+            continue
+        eq = c_.methods.get("__eq__")
+        if eq is None or len(eq.params()) < 2:
+            continue
+        n_eq += 1
+        ctx.saw(eq)
+        oname = eq.params()[1]
+
+        def truthy(t):
+            if isinstance(t, ast.Name):
+                return [t]
+            if isinstance(t, ast.BoolOp):
+                return [y for v_ in t.values for y in truthy(v_)]
+            if isinstance(t, ast.UnaryOp) and isinstance(t.op, ast.Not):
+                return truthy(t.operand)
+            return []
+        for x in walk_no_nested(eq.node):
+            tests = [x.test] if isinstance(x, (ast.If, ast.While, ast.IfExp)) else \
+                ([x.value] if isinstance(x, ast.Return) and isinstance(x.value, (ast.BoolOp, ast.UnaryOp)) else [])
+            for t in tests:
+                for nm in truthy(t):
+                    if nm.id == oname:
+                        ctx.violation("R2.5", eq.qualname, t, loc(eq, x),
+                                      "`%s` tests `%s` for truthiness; %s defines __bool__/__len__, so an empty group / empty annotation is "
+                                      "falsy and compares unequal to an equal empty tree: printing and re-parsing `()` or `` no longer yields "
+                                      "an equal tree" % (norm(t)[:50], oname, c_.name))
+        ctx.ok("R2.5", "%s.__eq__ does not test `%s` for truthiness" % (c_.name, oname), loc(eq, eq.node))
+    ctx.floor("R2.5", "__eq__ of tree classes that define __bool__/__len__", n_eq, 1)
 
 
 def print_all_children(ctx, rule):
